@@ -218,18 +218,17 @@ fn cell_of(tag: u8) -> Data {
         _ => Data::Error(any_kind()),
     }
 }
-fn any_cell() -> Data {
-    let tag: u8 = kani::any();
-    kani::assume(tag < 6);
-    cell_of(tag)
-}
-fn covers(d: &Data) {
-    kani::cover!(matches!(d, Data::Int(_)));
-    kani::cover!(matches!(d, Data::Float(_)));
-    kani::cover!(matches!(d, Data::Bool(_)));
-    kani::cover!(matches!(d, Data::Empty));
-    kani::cover!(matches!(d, Data::DateTime(_)));
-    kani::cover!(matches!(d, Data::Error(_)));
+/// run `f` on a fully symbolic cell of every non-String variant. The variant tag is concrete in each call
+/// (the payload and the position are symbolic), so CBMC does not explore the String arms of the real code
+/// with an invalid symbolic String; the union of the six calls is the whole non-String domain.
+fn for_all_cells(f: fn(Data, (u32, u32))) {
+    let mut tag = 0u8;
+    while tag < 6 {
+        let pos: (u32, u32) = kani::any();
+        f(cell_of(tag), pos);
+        tag += 1;
+    }
+    kani::cover!(tag == 6); // all six calls returned
 }
 /// the number carried by a DateTime cell (its serial value), read through the public accessor
 fn dt_value(d: &Data) -> f64 {
@@ -249,9 +248,7 @@ macro_rules! num_harness {
         #[kani::proof]
         #[kani::stub(alloc::fmt::format, format_stub)]
         fn $name() {
-            let d = any_cell();
-            let pos: (u32, u32) = kani::any();
-            covers(&d);
+            for_all_cells(|d, pos| {
             let out = observe(d.to_cell_deserializer(pos).$method(RecV));
             let expect = match &d {
                 Data::Int(v) => Out::Ok(($got)(*v as $t)),
@@ -260,6 +257,7 @@ macro_rules! num_harness {
                 _ => Out::OtherErr,
             };
             assert!(out == expect);
+            });
         }
     };
 }
@@ -278,9 +276,7 @@ num_harness!(de_f32, deserialize_f32, f32, |v: f32| Got::F32(v.to_bits()));
 #[kani::proof]
 #[kani::stub(alloc::fmt::format, format_stub)]
 fn de_bool() {
-    let d = any_cell();
-    let pos: (u32, u32) = kani::any();
-    covers(&d);
+    for_all_cells(|d, pos| {
     let out = observe(d.to_cell_deserializer(pos).deserialize_bool(RecV));
     let expect = match &d {
         Data::Bool(b) => Out::Ok(Got::Bool(*b)),
@@ -292,15 +288,14 @@ fn de_bool() {
         _ => Out::OtherErr,
     };
     assert!(out == expect);
+    });
 }
 
 /// option: Empty -> None; every other cell -> Some(the same cell at the same position)
 #[kani::proof]
 #[kani::stub(alloc::fmt::format, format_stub)]
 fn de_option() {
-    let d = any_cell();
-    let pos: (u32, u32) = kani::any();
-    covers(&d);
+    for_all_cells(|d, pos| {
     unsafe { INNER_ERR = false };
     let out = observe(d.to_cell_deserializer(pos).deserialize_option(RecV));
     let expect = match &d {
@@ -313,15 +308,14 @@ fn de_option() {
         _ => Out::OtherErr,
     };
     assert!(out == expect);
+    });
 }
 
 /// unit: Empty -> unit; Error -> CellError; everything else is rejected
 #[kani::proof]
 #[kani::stub(alloc::fmt::format, format_stub)]
 fn de_unit() {
-    let d = any_cell();
-    let pos: (u32, u32) = kani::any();
-    covers(&d);
+    for_all_cells(|d, pos| {
     let out = observe(d.to_cell_deserializer(pos).deserialize_unit(RecV));
     let expect = match &d {
         Data::Empty => Out::Ok(Got::Unit),
@@ -329,15 +323,14 @@ fn de_unit() {
         _ => Out::OtherErr,
     };
     assert!(out == expect);
+    });
 }
 
 /// any (self-describing): the cell's own type; DateTime as its serial number; Empty as unit
 #[kani::proof]
 #[kani::stub(alloc::fmt::format, format_stub)]
 fn de_any() {
-    let d = any_cell();
-    let pos: (u32, u32) = kani::any();
-    covers(&d);
+    for_all_cells(|d, pos| {
     let out = observe(d.to_cell_deserializer(pos).deserialize_any(RecV));
     let expect = match &d {
         Data::Int(v) => Out::Ok(Got::I64(*v)),
@@ -349,4 +342,66 @@ fn de_any() {
         _ => Out::OtherErr,
     };
     assert!(out == expect);
+    });
+}
+
+// ---------------------------------------------------------------------------------------------
+// Part 2 -- RangeDeserializer::{new,next,size_hint} + RowDeserializer (bounded)
+// ---------------------------------------------------------------------------------------------
+
+/// symbolic origin; the only constraint is that the range fits into u32 coordinates
+fn any_origin() -> (u32, u32) {
+    let r: u32 = kani::any();
+    let c: u32 = kani::any();
+    kani::assume(r <= u32::MAX - 4 && c <= u32::MAX - 4);
+    (r, c)
+}
+
+/// H x W range at `start` built through the public API; cell (i, j) is `cell(i, j)`
+fn build_range<const H: usize, const W: usize>(start: (u32, u32), cells: &[[Data; W]; H]) -> Range<Data> {
+    let mut r: Range<Data> = Range::new(start, (start.0 + H as u32 - 1, start.1 + W as u32 - 1));
+    let mut i = 0;
+    while i < H {
+        let mut j = 0;
+        while j < W {
+            r.set_value((start.0 + i as u32, start.1 + j as u32), cells[i][j].clone());
+            j += 1;
+        }
+        i += 1;
+    }
+    r
+}
+
+fn no_headers() -> RangeDeserializerBuilder<'static, &'static str> {
+    let mut b = RangeDeserializerBuilder::new();
+    b.has_headers(false);
+    b
+}
+
+#[kani::proof]
+#[kani::unwind(8)]
+#[kani::stub(alloc::fmt::format, format_stub)]
+fn probe_rows_3x2() {
+    let start = any_origin();
+    let v: [[i64; 2]; 3] = kani::any();
+    let cells = [
+        [Data::Int(v[0][0]), Data::Int(v[0][1])],
+        [Data::Int(v[1][0]), Data::Int(v[1][1])],
+        [Data::Int(v[2][0]), Data::Int(v[2][1])],
+    ];
+    let range = build_range(start, &cells);
+    let b = no_headers();
+    let Ok(mut it) = b.from_range::<Data, (i64, i64)>(&range) else {
+        assert!(false);
+        return;
+    };
+    let mut n = 0;
+    while n < 3 {
+        match it.next() {
+            Some(Ok((a, b))) => assert!(a == v[n][0] && b == v[n][1]),
+            _ => assert!(false),
+        }
+        n += 1;
+    }
+    assert!(it.next().is_none());
 }
